@@ -112,6 +112,17 @@ func (d *dhcpRun) clientID(cl *dclient) []byte {
 	return nil
 }
 
+// dhcpHostNames: what clients put into the host name option (12). The name is the one piece of free text the server keeps
+// (host table, lease file): names with characters that mean something to a formatter, to YAML or to a terminal are ordinary
+// input here. "" stands for no option at all.
+var dhcpHostNames = []string{"", "", "", "laptop", "tv-100%hd", "%s%d%v%n", "a: b", "# not a comment", "'single'", "\"double\"", "back\\slash", "two\nlines", "tab\there",
+	"null", "~", "- item", "{a: 1}", "[x]", "caf\u00e9", " leading and trailing ", "yes", "0x1f", "!!binary x", "&anchor *alias", "|", ">", "@at", "`tick`",
+	strings.Repeat("long-name.", 20), "\x00nul\x00", "\xff\xfe"}
+
+func (d *dhcpRun) hostName(cl *dclient, k int) string {
+	return dhcpHostNames[(int(cl.mac[5])*7+int(d.idx)+k/16)%len(dhcpHostNames)]
+}
+
 // pickAddr returns the address a parameter choice stands for.
 func (d *dhcpRun) pickAddr(p int, me *dclient, cls []*dclient, captured bool) netip.Addr {
 	lan := d.net.nic.HomeLAN
@@ -268,6 +279,10 @@ func (d *dhcpRun) history() {
 			if id := d.clientID(cl); id != nil {
 				q.Options = append(q.Options, refdec.DHCPOpt{Code: 61, Data: id})
 			}
+			if hn := d.hostName(cl, step); hn != "" {
+				q.Options = append(q.Options, refdec.DHCPOpt{Code: 12, Data: []byte(hn)})
+				c.Obs("messages_with_a_host_name_option", 1)
+			}
 			// parameter request list: absent, empty, the usual ones, and lists that name the router without the mask, the mask
 			// without the router, neither, or options the server never sends (the reply must be well-formed whatever is asked)
 			prls := [][]byte{nil, {3, 1, 6, 51}, nil, {1, 3, 6, 15}, {}, {3, 6}, {6, 3}, {3}, {1}, {15, 6}, {51, 58, 59, 3}, {6, 15, 119, 252}, {3, 3, 1, 1}}
@@ -316,6 +331,12 @@ func (d *dhcpRun) history() {
 			if o.K == "renew" {
 				req.CI = a
 				srcIP = a
+				if a != cl.acked && cl.acked.IsValid() && (step+int(d.idx))%2 == 0 {
+					// the datagram comes from the address the client really has while ciaddr names another one: it is ciaddr
+					// that says which lease is being renewed (RFC 2131 4.3.2)
+					srcIP = cl.acked
+					c.Obs("renewals_sent_from_another_address_than_ciaddr", 1)
+				}
 			} else {
 				req.Options = append(req.Options, refdec.DHCPOpt{Code: 50, Data: ip4b(a)})
 			}
